@@ -194,6 +194,9 @@ func (s *server) CreateTable(ctx context.Context, req *btapb.CreateTableRequest)
 	if len(tbl) > maxNameLen {
 		return nil, status.Errorf(codes.InvalidArgument, "table name too long (%d bytes)", len(tbl))
 	}
+	if strings.ContainsRune(tbl, 0) {
+		return nil, status.Errorf(codes.InvalidArgument, "table name contains a NUL character")
+	}
 	for _, seg := range strings.Split(tbl, "/") {
 		if len(seg) > maxSegmentLen {
 			return nil, status.Errorf(codes.InvalidArgument, "table name component too long (%d bytes)", len(seg))
